@@ -50,9 +50,10 @@ const (
 	OpOnce
 	OpDrive // driver thread: run one other thread exclusively until it yields / blocks / finishes
 	OpQuery // driver thread: ask for the enabled transitions of another thread
+	OpSpin  // runtime.Gosched / time.Sleep inside a polling loop: enabled once another thread has made a step
 )
 
-var opNames = [...]string{"none", "start", "resume", "yield", "Lock", "RLock", "WLock", "WLockWait", "atomic", "chan", "close", "env", "choose", "join", "wgwait", "pool", "once", "drive", "query"}
+var opNames = [...]string{"none", "start", "resume", "yield", "Lock", "RLock", "WLock", "WLockWait", "atomic", "chan", "close", "env", "choose", "join", "wgwait", "pool", "once", "drive", "query", "spin-wait"}
 
 func (k OpKind) String() string { return opNames[k] }
 
@@ -313,6 +314,20 @@ func Yield() {
 	}
 }
 
+// Gosched stands for runtime.Gosched() and time.Sleep() of the code under test: the body of a
+// polling loop. Waiting must be visible to the explorer, or a loop such as
+// `for len(ch) > 0 { runtime.Gosched() }` never ends under a cooperative scheduler. The thread
+// parks and becomes enabled again only after some OTHER thread has made a step (fair
+// scheduling of yielding threads); when nothing else is enabled the spinners are let through,
+// and if that happens many times in a row the execution ends as a livelock.
+//
+//go:norace
+func Gosched() {
+	if t := cur(); t != nil {
+		t.simple(OpSpin, 0, false)
+	}
+}
+
 // EnvPoint is a point for an environment event executed by the calling scenario thread.
 //
 //go:norace
@@ -323,6 +338,29 @@ func EnvPoint(label string) {
 		t.req.label = ""
 	}
 }
+
+// ClockPoint is called by the vtime shims before every read of the virtual clock. A clock read
+// is a schedule point only in scenarios in which the clock can move while threads run
+// (SetClockPoints): otherwise it commutes with everything. Without it, the code between a
+// channel receive and the thread's next lock (run as a forced move right after the rendezvous)
+// would always read the clock of the moment of the hand-off.
+//
+//go:norace
+func ClockPoint() {
+	if !clockPoints {
+		return
+	}
+	if t := cur(); t != nil {
+		t.req.label = "clock-read"
+		t.simple(OpEnv, 0, false)
+		t.req.label = ""
+	}
+}
+
+// SetClockPoints: see ClockPoint. Called by the main scenario thread before other threads run.
+func SetClockPoints(b bool) { clockPoints = b }
+
+var clockPoints bool
 
 // AtomicPoint is called by the vatomic shims before the real atomic operation.
 //
@@ -799,6 +837,10 @@ type controller struct {
 	// threads that are BLOCKED in a channel operation (parked at an operation that could not
 	// proceed): Go has queued them, in this order, on the channel's wait queues
 	blocked  [MaxThreads]int64
+	spinAt   [MaxThreads]int64 // OpSpin: tcount+1 when the thread was first seen parked there (0: not spinning)
+	tcount   int64             // transitions executed in this execution
+	spinIdle int               // consecutive steps in which only spinning threads could run
+	spinFallback bool          // nothing else is enabled: spinning threads are let through
 	blockSeq int64
 	// active Drive request
 	driving    bool
@@ -832,6 +874,7 @@ func resetGlobals() {
 	inHand = nil
 	daemonYield = false
 	logLocks = false
+	clockPoints = false
 	mapOrder = nil
 	poolPoints = false
 	active = true
@@ -976,6 +1019,8 @@ func Run(main func(), ch Chooser, opts Options) *Result {
 	c.driving = false
 	c.blocked = [MaxThreads]int64{}
 	c.blockSeq = 0
+	c.spinAt = [MaxThreads]int64{}
+	c.tcount, c.spinIdle = 0, 0
 	res := &Result{}
 
 	t0 := allocThread("main", false)
@@ -1064,6 +1109,25 @@ func Run(main func(), ch Chooser, opts Options) *Result {
 			}
 		}
 		if len(c.trans) == 0 {
+			// only threads waiting in a polling loop remain: let them look again
+			c.spinFallback = true
+			for _, i := range order {
+				c.enabled(i, &reqs[i], reqs[:n], states[:n])
+			}
+			c.spinFallback = false
+			if len(c.trans) > 0 {
+				nRunning = 0
+				c.spinIdle++
+				if c.spinIdle > 200 {
+					res.Outcome = Livelock
+					res.Detail = "only threads spinning in a polling loop (runtime.Gosched / time.Sleep) can run, and what they wait for does not happen\n" + c.describeBlocked(reqs[:n], states[:n])
+					break
+				}
+			}
+		} else {
+			c.spinIdle = 0
+		}
+		if len(c.trans) == 0 {
 			// nothing enabled: deadlock unless only daemons remain (main finished handled above)
 			res.Outcome = Deadlock
 			res.Detail = c.describeBlocked(reqs[:n], states[:n])
@@ -1093,6 +1157,8 @@ func Run(main func(), ch Chooser, opts Options) *Result {
 			c.trace = append(c.trace, c.describe(step, tr, &reqs[tr.Tid], &p))
 		}
 		c.apply(tr, reqs[:n])
+		c.tcount++
+		c.spinAt[tr.Tid] = 0
 		setStep(int32(step+1), tr.Tid)
 		c.running = tr.Tid
 		if tr.Partner >= 0 {
@@ -1149,6 +1215,10 @@ func (c *controller) enabled(i int, r *request, reqs []request, states []int32) 
 	switch r.kind {
 	case OpStart, OpResume, OpYield, OpAtomic, OpEnv, OpClose, OpPool, OpOnce:
 		c.trans = append(c.trans, Trans{Tid: i, Partner: -1})
+	case OpSpin:
+		if c.spinAt[i] != 0 && c.tcount >= c.spinAt[i] || c.spinFallback {
+			c.trans = append(c.trans, Trans{Tid: i, Partner: -1})
+		}
 	case OpChoose:
 		for v := 0; v < r.nchoose; v++ {
 			c.trans = append(c.trans, Trans{Tid: i, Case: v, Partner: -1})
@@ -1289,6 +1359,13 @@ func (c *controller) readyAlone(i int, reqs []request, states []int32) bool {
 // which cannot proceed: in Go they sit on the channel's wait queue from that moment on.
 func (c *controller) stampBlocked(n int, reqs []request, states []int32) {
 	for i := 0; i < n; i++ {
+		if states[i] == stParked && reqs[i].kind == OpSpin {
+			if c.spinAt[i] == 0 {
+				c.spinAt[i] = c.tcount + 1
+			}
+		} else {
+			c.spinAt[i] = 0
+		}
 		if states[i] != stParked || reqs[i].kind != OpChan {
 			c.blocked[i] = 0
 			continue
@@ -1533,6 +1610,8 @@ func (c *controller) handleDriver(step, n int, reqs []request, states []int32) b
 		c.trace = append(c.trace, c.describe(step, tr, &reqs[tr.Tid], &p))
 	}
 	c.apply(tr, reqs)
+	c.tcount++
+	c.spinAt[tr.Tid] = 0
 	setStep(int32(step+1), tr.Tid)
 	c.running = tr.Tid
 	if tr.Partner >= 0 {
